@@ -14,6 +14,7 @@ import (
 	"fmt"
 	"os"
 	"runtime"
+	"runtime/debug"
 	"runtime/pprof"
 	"sort"
 	"strings"
@@ -325,11 +326,14 @@ func runWithReruns(cs Case) caseOut {
 func main() {
 	if evid.IsWorker() {
 		sysx.HangLimit = 10 * time.Second
+		// the machine is shared: few threads per worker keep goroutine hand-overs cheap, a lazy GC keeps the
+		// per-packet buffers from dominating
+		procs := 4
 		if v := os.Getenv("C01_PROCS"); v != "" {
-			n := 0
-			fmt.Sscan(v, &n)
-			runtime.GOMAXPROCS(n)
+			fmt.Sscan(v, &procs)
 		}
+		runtime.GOMAXPROCS(procs)
+		debug.SetGCPercent(400)
 		evid.ServeWorker(func(raw json.RawMessage) any {
 			var j job
 			if err := json.Unmarshal(raw, &j); err != nil {
@@ -360,7 +364,7 @@ func main() {
 			pprof.StartCPUProfile(fh) //nolint:errcheck
 			defer pprof.StopCPUProfile()
 			runtime.GOMAXPROCS(4)
-			cfg := configs()[13]
+			cfg := Cfg{Dir: dirStream, Rd: tTCP, Shape: "2m"}
 			t0 := time.Now()
 			for b := 0; b < 10; b++ {
 				runCase(seqCase(cfg, 7, 4, b*120, b*120+120, b, false))
@@ -404,7 +408,7 @@ func main() {
 	}
 	run := evid.New("C01", "model_checking")
 	thorough := run.Thorough()
-	seqLen, seqK := 4, 6
+	seqLen, seqK := 4, 4
 	ev1, ev2 := 3, 2
 	if thorough {
 		seqLen, seqK = 6, 5
@@ -510,20 +514,45 @@ func main() {
 		return Case{Cfg: cfg, Kind: "place", StartSeq: start(cfg), Gen: g}
 	}
 	n1, n2 := 0, 0
-	for _, cfg := range cfgs {
-		if part("place1") {
+	if part("place1") {
+		for _, cfg := range cfgs {
 			for _, a := range p1 {
 				cases = append(cases, mk(cfg, a))
 				n1++
 			}
 		}
-		if part("place2") && (thorough || (cfg.Shape == "2m" && !cfg.Secure && (cfg.Dir == dirStream || cfg.Pub == cfg.Rd))) {
+	}
+	// two readers: quick = the two TCP configurations of shape 2m (reader 1 on UDP); thorough = every
+	// direction/transport/TLS combination of shape 2m, then plain tcp and udp of shape 1m2f
+	var place2Cfg [][2]int
+	if part("place2") {
+		var sel []Cfg
+		for _, cfg := range cfgs {
+			if cfg.Shape == "2m" && !cfg.Secure && cfg.Rd == tTCP && (cfg.Dir == dirStream || cfg.Pub == tTCP) {
+				sel = append(sel, cfg)
+			}
+		}
+		if thorough {
+			for _, cfg := range cfgs {
+				if cfg.Shape == "2m" && !(!cfg.Secure && cfg.Rd == tTCP && (cfg.Dir == dirStream || cfg.Pub == tTCP)) {
+					sel = append(sel, cfg)
+				}
+			}
+			for _, cfg := range cfgs {
+				if cfg.Shape == "1m2f" && !cfg.Secure && (cfg.Rd == tTCP || cfg.Rd == tUDP) && (cfg.Dir == dirStream || cfg.Pub == cfg.Rd) {
+					sel = append(sel, cfg)
+				}
+			}
+		}
+		for _, cfg := range sel {
+			lo := len(cases)
 			for _, a := range p2 {
 				for _, b := range p2 {
 					cases = append(cases, mk(cfg, a, b))
 					n2++
 				}
 			}
+			place2Cfg = append(place2Cfg, [2]int{lo, len(cases)})
 		}
 	}
 	// part 3: SRTP and the sequence-number wrap: a reader joins between the last packet before the wrap and the
@@ -550,142 +579,180 @@ func main() {
 	run.Set("placement_cases_two_readers", n2)
 	run.Set("srtp_wrap_cases", n3)
 
-	// jobs: word batches are heavy (2 per job), placement cases light (80 per job), the SRTP cases may each wait
-	// for the hang limit (1 per job)
-	var jobCases [][]int
-	for i := 0; i < nBatch; i += 2 {
-		var idx []int
-		for k := i; k < min(i+2, nBatch); k++ {
-			idx = append(idx, k)
-		}
-		jobCases = append(jobCases, idx)
-	}
-	for i := nBatch; i < len(cases)-n3; i += 80 {
-		var idx []int
-		for k := i; k < min(i+80, len(cases)-n3); k++ {
-			idx = append(idx, k)
-		}
-		jobCases = append(jobCases, idx)
-	}
-	// interleave heavy and light jobs so that the tail is short; the slow SRTP cases go first
-	sort.SliceStable(jobCases, func(a, b int) bool { return a%11 < b%11 })
-	for i := len(cases) - n3; i < len(cases); i++ {
-		jobCases = append([][]int{{i}}, jobCases...)
-	}
-	var jobs []any
-	for _, idx := range jobCases {
-		var j job
-		for _, k := range idx {
-			j.Cases = append(j.Cases, cases[k])
-		}
-		jobs = append(jobs, j)
-	}
-	results := evid.RunJobs(jobs, 16, 4*time.Minute)
-
 	agg := map[string]int64{}
 	perCfg := map[string]int64{}
 	short := func(cs Case) string {
 		s := caseString(expand(cs))
 		return s[:min(300, len(s))]
 	}
-	for ji, r := range results {
-		idx := jobCases[ji]
-		if r.Crashed || r.Stalled {
-			sig := "crash"
-			if r.Stalled {
-				sig = "hang"
+	nw := 16
+	if v := os.Getenv("C01_WORKERS"); v != "" {
+		fmt.Sscan(v, &nw)
+	}
+	// runPhase farms the given groups of case indices out to the workers and judges the results.
+	runPhase := func(jobCases [][]int) {
+		var jobs []any
+		for _, idx := range jobCases {
+			var j job
+			for _, k := range idx {
+				j.Cases = append(j.Cases, cases[k])
 			}
-			var hs []string
-			for _, k := range idx[:min(len(idx), 5)] {
-				hs = append(hs, short(cases[k]))
-			}
-			run.Violation(sigBase(cases[idx[0]].Cfg)+"/"+sig, map[string]any{"cases_in_job": hs, "case": expand(cases[idx[0]]), "stderr": r.Stderr})
-			continue
+			jobs = append(jobs, j)
 		}
-		var out jobOut
-		if err := json.Unmarshal(r.Output, &out); err != nil || len(out.Outs) != len(idx) {
-			run.Fatal("bad worker output for job %d: %v (%d outs for %d cases)", ji, err, len(out.Outs), len(idx))
-		}
-		for oi, o := range out.Outs {
-			cs := cases[idx[oi]]
-			res := o.Res
-			if res.HarnessErr == "skipped" {
-				run.Cap("cases skipped in a worker job after 3 failing cases")
+		results := evid.RunJobs(jobs, nw, 4*time.Minute)
+		for ji, r := range results {
+			idx := jobCases[ji]
+			if r.Crashed || r.Stalled {
+				sig := "crash"
+				if r.Stalled {
+					sig = "hang"
+				}
+				var hs []string
+				for _, k := range idx[:min(len(idx), 5)] {
+					hs = append(hs, short(cases[k]))
+				}
+				run.Violation(sigBase(cases[idx[0]].Cfg)+"/"+sig, map[string]any{"cases_in_job": hs, "case": expand(cases[idx[0]]), "stderr": r.Stderr})
 				continue
 			}
-			words := int64(1)
-			if cs.Kind == "seq" {
-				words = int64(res.Segments)
+			var out jobOut
+			if err := json.Unmarshal(r.Output, &out); err != nil || len(out.Outs) != len(idx) {
+				run.Fatal("bad worker output for job %d: %v (%d outs for %d cases)", ji, err, len(out.Outs), len(idx))
 			}
-			run.Eval(words)
-			run.Trace(1)
-			run.Transition(int64(res.Steps))
-			for _, s := range res.States {
-				run.State(s)
-			}
-			run.Outcome(cs.Cfg.String() + "|" + res.Outcome)
-			if res.Received > 0 {
-				b, _ := json.Marshal(cs)
-				run.NontrivialHash(evid.Hash(string(b)))
+			for oi, o := range out.Outs {
+				cs := cases[idx[oi]]
+				res := o.Res
+				if res.HarnessErr == "skipped" {
+					run.Cap("cases skipped in a worker job after 3 failing cases")
+					continue
+				}
+				words := int64(1)
 				if cs.Kind == "seq" {
-					// every word of the batch was delivered to the always-on reader
-					for k := 1; k < res.Segments; k++ {
-						run.NontrivialHash(evid.Hash(string(b) + fmt.Sprint("#", k)))
+					words = int64(res.Segments)
+				}
+				run.Eval(words)
+				run.Trace(1)
+				run.Transition(int64(res.Steps))
+				for _, s := range res.States {
+					run.State(s)
+				}
+				run.Outcome(cs.Cfg.String() + "|" + res.Outcome)
+				if res.Received > 0 {
+					b, _ := json.Marshal(cs)
+					run.NontrivialHash(evid.Hash(string(b)))
+					if cs.Kind == "seq" {
+						// every word of the batch was delivered to the always-on reader
+						for k := 1; k < res.Segments; k++ {
+							run.NontrivialHash(evid.Hash(string(b) + fmt.Sprint("#", k)))
+						}
 					}
 				}
-			}
-			agg["packets_written"] += int64(res.Written)
-			agg["packets_received"] += int64(res.Received)
-			agg["write_errors"] += int64(res.WriteErrs)
-			agg["reader_events"] += int64(res.Events)
-			agg["udp_missing_reported_not_demanded"] += int64(res.UDPMissing)
-			agg["udp_barrier_timeouts"] += int64(res.UDPTimeouts)
-			agg["missing_excused_by_stream_write_error"] += int64(res.Excused)
-			agg["received_but_written_outside_play_window"] += int64(res.OldPackets)
-			agg["tap_frames_checked"] += int64(res.TapFrames)
-			agg["ssrc_comparisons"] += int64(res.SSRCChecked)
-			if res.TapSkipped != "" {
-				agg["tap_skipped_cases"]++
-				run.Set("tap_skipped_example", res.TapSkipped)
-			}
-			perCfg[sigBase(cs.Cfg)] += int64(res.Received)
-			if res.UDPTimeouts > 0 && !cs.Cfg.Secure {
-				run.Flaky("UDP delivery barrier timed out (not a violation: UDP only promises a subsequence) in " + short(cs))
-			}
-			if run.NeedSample() && (idx[oi]%977 == 3 || (cs.Kind == "place" && idx[oi]%1013 == 7)) {
-				show := expand(cs)
-				if cs.Kind == "seq" && res.Segments > 7 {
-					show = *isolate(show, 7)
+				agg["packets_written"] += int64(res.Written)
+				agg["packets_received"] += int64(res.Received)
+				agg["write_errors"] += int64(res.WriteErrs)
+				agg["reader_events"] += int64(res.Events)
+				agg["udp_missing_reported_not_demanded"] += int64(res.UDPMissing)
+				agg["udp_barrier_timeouts"] += int64(res.UDPTimeouts)
+				agg["missing_excused_by_stream_write_error"] += int64(res.Excused)
+				agg["received_but_written_outside_play_window"] += int64(res.OldPackets)
+				agg["tap_frames_checked"] += int64(res.TapFrames)
+				agg["ssrc_comparisons"] += int64(res.SSRCChecked)
+				if res.TapSkipped != "" {
+					agg["tap_skipped_cases"]++
+					run.Set("tap_skipped_example", res.TapSkipped)
 				}
-				run.Sample(map[string]any{"history": caseString(show), "written": res.Written, "received": res.Received, "outcome": res.Outcome})
-			}
-			if len(res.Fails) == 0 && res.HarnessErr != "" {
-				if o.Repro >= 1 {
-					run.Violation(sigBase(cs.Cfg)+"/harness-error", map[string]any{"case": expand(cs), "history": caseString(expand(cs)), "msg": res.HarnessErr, "reproduced": fmt.Sprintf("%d/%d", o.Repro, o.Rerun)})
-				} else {
-					run.Flaky("harness-level error did not reproduce: " + res.HarnessErr + " in " + short(cs))
+				perCfg[sigBase(cs.Cfg)] += int64(res.Received)
+				if res.UDPTimeouts > 0 && !cs.Cfg.Secure {
+					run.Flaky("UDP delivery barrier timed out (not a violation: UDP only promises a subsequence) in " + short(cs))
 				}
-				continue
-			}
-			for fi, f := range res.Fails {
-				rc := expand(cs)
-				if o.Single != nil {
-					rc = *o.Single
-				}
-				detail := map[string]any{"case": rc, "history": caseString(rc), "msg": f.Msg, "reader": f.Reader, "written_index": f.WIdx}
-				if fi == 0 {
-					detail["reproduced"] = fmt.Sprintf("%d/%d", o.Repro, o.Rerun)
-					if o.Repro == 0 {
-						run.Flaky(fmt.Sprintf("%s did not reproduce in %d re-runs: %s | %s", f.Sig, o.Rerun, f.Msg, short(rc)))
-						break
+				if run.NeedSample() && (idx[oi]%977 == 3 || (cs.Kind == "place" && idx[oi]%1013 == 7)) {
+					show := expand(cs)
+					if cs.Kind == "seq" && res.Segments > 7 {
+						show = *isolate(show, 7)
 					}
-				} else if o.Single != nil {
-					detail["case"], detail["history"] = expand(cs), caseString(expand(cs))
+					run.Sample(map[string]any{"history": caseString(show), "written": res.Written, "received": res.Received, "outcome": res.Outcome})
 				}
-				run.Violation(f.Sig, detail)
+				if len(res.Fails) == 0 && res.HarnessErr != "" {
+					if o.Repro >= 1 {
+						run.Violation(sigBase(cs.Cfg)+"/harness-error", map[string]any{"case": expand(cs), "history": caseString(expand(cs)), "msg": res.HarnessErr, "reproduced": fmt.Sprintf("%d/%d", o.Repro, o.Rerun)})
+					} else {
+						run.Flaky("harness-level error did not reproduce: " + res.HarnessErr + " in " + short(cs))
+					}
+					continue
+				}
+				for fi, f := range res.Fails {
+					rc := expand(cs)
+					if o.Single != nil {
+						rc = *o.Single
+					}
+					detail := map[string]any{"case": rc, "history": caseString(rc), "msg": f.Msg, "reader": f.Reader, "written_index": f.WIdx}
+					if fi == 0 {
+						detail["reproduced"] = fmt.Sprintf("%d/%d", o.Repro, o.Rerun)
+						if o.Repro == 0 {
+							run.Flaky(fmt.Sprintf("%s did not reproduce in %d re-runs: %s | %s", f.Sig, o.Rerun, f.Msg, short(rc)))
+							break
+						}
+					} else if o.Single != nil {
+						detail["case"], detail["history"] = expand(cs), caseString(expand(cs))
+					}
+					run.Violation(f.Sig, detail)
+				}
 			}
 		}
 	}
+
+	// phase 1: the SRTP cases (each may wait for the hang limit: 1 per job, first), word batches (heavy: 2 per
+	// job) and one-reader placements (light: 80 per job), interleaved so that the tail is short
+	var ph1 [][]int
+	for i := 0; i < nBatch; i += 2 {
+		var idx []int
+		for k := i; k < min(i+2, nBatch); k++ {
+			idx = append(idx, k)
+		}
+		ph1 = append(ph1, idx)
+	}
+	for i := nBatch; i < nBatch+n1; i += 80 {
+		var idx []int
+		for k := i; k < min(i+80, nBatch+n1); k++ {
+			idx = append(idx, k)
+		}
+		ph1 = append(ph1, idx)
+	}
+	sort.SliceStable(ph1, func(a, b int) bool { return a%11 < b%11 })
+	for i := len(cases) - n3; i < len(cases); i++ {
+		ph1 = append([][]int{{i}}, ph1...)
+	}
+	t1 := time.Now()
+	runPhase(ph1)
+	// phase 2: two-reader placements, one configuration after the other while the time budget lasts (the
+	// budget only decides how much is enumerated; it is recorded as a cap, never as a verdict)
+	budget := 100 * time.Second
+	if thorough {
+		budget = 800 * time.Second
+	}
+	units := float64(n1) + float64(nSeq)/4 + 1
+	perCase := time.Since(t1).Seconds() / units
+	done2 := 0
+	for ci := 0; ci < len(place2Cfg); ci++ {
+		lo, hi := place2Cfg[ci][0], place2Cfg[ci][1]
+		est := time.Duration(float64(hi-lo) * perCase * float64(time.Second))
+		if v := os.Getenv("C01_NOBUDGET"); v == "" && run.Elapsed()+est > budget {
+			run.Cap(fmt.Sprintf("time budget: two-reader placements of %d of %d configurations not run (elapsed %.0fs, next configuration estimated at %.0fs)", len(place2Cfg)-ci, len(place2Cfg), run.Elapsed().Seconds(), est.Seconds()))
+			break
+		}
+		var ph [][]int
+		for i := lo; i < hi; i += 80 {
+			var idx []int
+			for k := i; k < min(i+80, hi); k++ {
+				idx = append(idx, k)
+			}
+			ph = append(ph, idx)
+		}
+		t2 := time.Now()
+		runPhase(ph)
+		perCase = time.Since(t2).Seconds() / float64(hi-lo)
+		done2 += hi - lo
+	}
+	run.Set("placement_cases_two_readers_run", done2)
 	for k, v := range agg {
 		run.Set(k, v)
 	}
@@ -711,4 +778,3 @@ func lettersString(ls []Letter) string {
 	}
 	return strings.Join(s, " ")
 }
-
